@@ -203,6 +203,10 @@ func init() {
 		fail := x.sym.Fresh("cron.parse.fails", SBool)
 		x.callCounter++
 		sched := VIface{Nil: fail, Typ: tup.At(0).Type(), Id: x.sym.Fresh("cron.schedule.id", SErr)}
+		if x.cronExprs == nil {
+			x.cronExprs = map[string]Term{}
+		}
+		x.cronExprs[sched.Id.S] = x.scalar(st, c.args[0])
 		return x.finish(st, fr, c, VTuple{[]Value{sched, x.freshErr(st, "cron.parse.err", Not(fail))}})
 	})
 	// go-playground/validator: a field error describes one failed binding rule with strings
@@ -359,7 +363,62 @@ func init() {
 		obj := x.alloc(st, &ChanObj{Typ: t, Cap: IntLit(1), Name: fmt.Sprintf("time.After!%d", x.callCounter)})
 		return x.finish(st, fr, c, VChan{Nil: TFalse, Obj: obj, Typ: t, Id: x.sym.Fresh("chan.id", SErr)})
 	})
-	reg("(time.Time).UnixMilli", "unconstrained int64", noop)
+	// time.Time values: the instant is kept as Unix nanoseconds in the struct's second field (a modelling
+	// convention private to these intrinsics; wall and loc are not interpreted)
+	timeVal := func(x *Exec, st *State, t types.Type, ns Term) Value {
+		v := x.zero(st, t)
+		if sv, ok := v.(VStruct); ok && len(sv.F) == 3 {
+			f := append([]Value(nil), sv.F...)
+			f[1] = VScalar{ns}
+			return VStruct{f}
+		}
+		return x.symbolic(st, t, "time")
+	}
+	timeNs := func(x *Exec, st *State, v Value) (Term, bool) {
+		if sv, ok := x.force(st, v).(VStruct); ok && len(sv.F) == 3 {
+			if sc, ok := x.force(st, sv.F[1]).(VScalar); ok && sc.T.Sort == SInt {
+				return sc.T, true
+			}
+		}
+		return Term{}, false
+	}
+	reg("time.Unix", "time.Unix(sec, nsec): the instant sec*1e9+nsec (mathematical integers)", func(x *Exec, st *State, fr *Frame, c *callCtx) bool {
+		sec, ns := x.scalar(st, c.args[0]), x.scalar(st, c.args[1])
+		return x.finish(st, fr, c, timeVal(x, st, c.ret.Type(), App(SInt, "+", App(SInt, "*", sec, IntLit(1000000000)), ns)))
+	})
+	reg("time.UnixMilli", "time.UnixMilli(ms): the instant ms*1e6 ns", func(x *Exec, st *State, fr *Frame, c *callCtx) bool {
+		ms := x.scalar(st, c.args[0])
+		return x.finish(st, fr, c, timeVal(x, st, c.ret.Type(), App(SInt, "*", ms, IntLit(1000000))))
+	})
+	reg("(time.Time).Truncate", "t.Truncate(d) for a positive d dividing 24h: t rounded down to a multiple of d since the Unix epoch (the zero time is a whole number of days before it); other d: an arbitrary instant", func(x *Exec, st *State, fr *Frame, c *callCtx) bool {
+		ns, ok := timeNs(x, st, c.args[0])
+		d := x.scalar(st, c.args[1])
+		if dv, isLit := intLitVal(d); ok && isLit && dv > 0 && 86400000000000%dv == 0 {
+			return x.finish(st, fr, c, timeVal(x, st, c.ret.Type(), App(SInt, "-", ns, App(SInt, "mod", ns, d))))
+		}
+		return x.finish(st, fr, c, timeVal(x, st, c.ret.Type(), x.sym.Fresh("time.truncate", SInt)))
+	})
+	reg("(time.Time).UnixMilli", "t.UnixMilli(): floor(ns/1e6) of the instant when it was built by the modelled constructors, otherwise an unconstrained int64", func(x *Exec, st *State, fr *Frame, c *callCtx) bool {
+		if ns, ok := timeNs(x, st, c.args[0]); ok {
+			return x.finish(st, fr, c, VScalar{App(SInt, "div", ns, IntLit(1000000))})
+		}
+		return x.finish(st, fr, c, VScalar{x.sym.Fresh("time.unixmilli", SInt)})
+	})
+	reg("(github.com/robfig/cron/v3.Schedule).Next", "schedule.Next(t) of a schedule parsed from expression e: the instant cronnextns(e, t); for t on a millisecond boundary its millisecond is cronnext(e, ms(t)) -- the definition of the spec function cronnext", func(x *Exec, st *State, fr *Frame, c *callCtx) bool {
+		ns, ok := timeNs(x, st, c.args[1])
+		iv, isI := x.force(st, c.args[0]).(VIface)
+		if !ok || !isI || x.cronExprs == nil {
+			return x.finish(st, fr, c, x.symbolic(st, c.ret.Type(), "cron.next"))
+		}
+		e, known := x.cronExprs[iv.Id.S]
+		if !known {
+			return x.finish(st, fr, c, x.symbolic(st, c.ret.Type(), "cron.next"))
+		}
+		next := App(SInt, "cronnextns", e, ns)
+		st.assume(Implies(Eq(App(SInt, "mod", ns, IntLit(1000000)), IntLit(0)),
+			Eq(App(SInt, "div", next, IntLit(1000000)), App(SInt, "cronnext", e, App(SInt, "div", ns, IntLit(1000000))))))
+		return x.finish(st, fr, c, timeVal(x, st, c.ret.Type(), next))
+	})
 
 	// uuid
 	reg("github.com/google/uuid.New", "opaque", noop)
